@@ -53,6 +53,12 @@ def panic_cone(ctx):
     u = [s for s in s2 if s.fn.endswith('unguarded_sub')]
     ctx.add('PC.guard-discharge-is-exact', 'fixture', 'fixtures/src/lib.rs', bool(g) and all(s.discharged for s in g) and bool(u) and not any(s.discharged for s in u),
             'positive control: `len - 128` after `if len < 128 { return }` must be discharged, the same subtraction without the guard must not', nontrivial=False)
+    p4 = G.cone(['vfixture::bounded_add', 'vfixture::unbounded_add'])
+    s4, _ = G.sources(p4)
+    bd = [s for s in s4 if s.fn.endswith('::bounded_add') and s.callee == 'Overflow(Add)']
+    ub = [s for s in s4 if s.fn.endswith('::unbounded_add') and s.callee == 'Overflow(Add)']
+    ctx.add('PC.bounded-operands-discharge-is-exact', 'fixture', 'fixtures/src/lib.rs', len(bd) == 3 and all(s.discharged for s in bd) and len(ub) == 2 and not any(s.discharged for s in ub),
+            'positive control: `2 + (x & 0x7f) as usize`, `2 + bytes.len()`, `x as usize + 300` (x: u8) must be discharged; `n + 2` (n: usize) and `units.len() + 2` (a slice of zero-sized elements) must not', nontrivial=False)
     cyc = G.sccs(set(parent.keys()))
     names = sorted(c[0].rsplit('::', 1)[-1] for c in cyc)
     ok = names == ['recurse_bounded', 'recurse_unbounded']
